@@ -81,11 +81,10 @@ def resolveStringLiteralEnding : Prog TokenType := do
 
 /-! ## `hex.rs`: `parse_sas_hex_string` on the full token text (quotes and trailing `x` included) -/
 
-/-- `u8::from_str_radix(s, 16)` for a 2-char string: optional leading `+` then ≥1 hex digits -/
+/-- the two-hex-digit test + `u8::from_str_radix(s, 16)` of `parse_sas_hex_string` -/
 def u8FromStrRadix16 : List Char → Option Nat
   | [a, b] =>
-    if a == '+' then (if isAsciiHexDigit b then some (hexDigitVal b) else none)
-    else if isAsciiHexDigit a && isAsciiHexDigit b then some (hexDigitVal a * 16 + hexDigitVal b)
+    if isAsciiHexDigit a && isAsciiHexDigit b then some (hexDigitVal a * 16 + hexDigitVal b)
     else none
   | _ => none
 
@@ -352,6 +351,6 @@ def lexExpectedToken (cfg : Cfg) (nextChar : Option Char) (ty : TokenType) (ch :
   | some (ec, ek) =>
     if nextChar != some ec then emitError ek else advance_
     emit ch ty
-    popMode
+    if nextChar.isSome then popMode
 
 end SasLexer
